@@ -167,7 +167,7 @@ func (x *opPathIdent) Do(currentData, _ any) (dataToUse any, err error) {
 		for _, e := range v.MapKeys() {
 			mks, ok := e.Interface().(string)
 			if !ok {
-				if reflect.TypeOf(e.Interface()).ConvertibleTo(reflect.TypeOf("")) {
+				if e.Interface() != nil && reflect.TypeOf(e.Interface()).ConvertibleTo(reflect.TypeOf("")) {
 					mksTemp := reflect.ValueOf(e.Interface()).Convert(reflect.TypeOf("")).Interface()
 					mks, ok = mksTemp.(string)
 					if !ok || mks == "" {
